@@ -2,7 +2,7 @@ package rules
 
 func init() {
 	property(&Property{ID: "C02", Level: "other",
-		Rules: []string{"R-STALE", "R-LOOKBACK", "R-SHARD", "R-ATOFFSET", "R-ITERERR", "R-ZEROSTEP"},
+		Rules: []string{"R-STALE", "R-LOOKBACK", "R-SHARD", "R-ATOFFSET", "R-ITERERR", "R-ZEROSTEP", "R-SELKEY"},
 		Explanation: "Structural necessary conditions of instant-vector selection, decided for every path of the current source: no iterator sample reaches an emission without passing the staleness test; the per-query lookback delta reaches the plan; shard indices 0..n-1 are each instantiated once, n>=1, and merged by one coalesce; selector operators are built with the @-folded Offset while the select range uses Timestamp/OriginalOffset; a failing Seek is told apart from an exhausted iterator; step cursors cannot stall on instant queries.",
 		NotDecided: []string{
 			"not decided: the age comparison itself (lookback-1/lookback/lookback+1 ms), the arithmetic that folds @ into an offset, the slicing arithmetic of seriesShard and the re-basing sums of sample IDs (value-level)",
@@ -14,7 +14,7 @@ func init() {
 			"not decided: window maintenance across steps (previousPoints overlap reuse, ReduceDelta), inclusive/exclusive window edges and the numerical values of the kernels (value-level); a structural diff against the reference kernels was rejected because it fires on behaviour-preserving rewrites",
 		}})
 	property(&Property{ID: "C04", Level: "other",
-		Rules: []string{"R-ACCRESET", "R-INTCONV", "R-SAMPLE0", "R-ONEPERSTEP", "R-PAIRING", "R-SORTEDNAMES", "R-TABLETS", "R-AGGNAME", "R-SHORTCUT", "R-ACCNONEMPTY"},
+		Rules: []string{"R-ACCRESET", "R-INTCONV", "R-SAMPLE0", "R-ONEPERSTEP", "R-PAIRING", "R-SORTEDNAMES", "R-TABLETS", "R-AGGNAME", "R-SHORTCUT", "R-ACCNONEMPTY", "R-ALLOCSIZE"},
 		Explanation: "Structural necessary conditions of aggregation: every accumulator is completely reset per step (tables are reused for every batch); the k/quantile parameter is NaN/range-tested before it is used as an integer; a parameter absent at a step is not indexed; one step vector per step; IDs and values are written in pairs; the grouping names handed to the label hashes are the sorted slice.",
 		NotDecided: []string{
 			"not decided: the group keys/labels themselves, the reduction values, NaN ordering in min/max/topk, tie handling (value-level)",
@@ -26,13 +26,13 @@ func init() {
 			"not decided: which pairs match, the values, error text and the step at which an ambiguous match is reported (value-level); an operator missing from the operation tables falls back correctly and is covered by C08",
 		}})
 	property(&Property{ID: "C06", Level: "other",
-		Rules: []string{"R-SENTINEL", "R-POINTFIELDS", "R-PAIRING", "R-ZEROSTEP", "R-SAMPLE0", "R-STEPBOUND", "R-EMPTYSERIES", "R-POINT0", "R-TABLETS", "R-OUTALIAS", "R-HASHSAME", "R-PULLALL"},
+		Rules: []string{"R-SENTINEL", "R-POINTFIELDS", "R-PAIRING", "R-ZEROSTEP", "R-SAMPLE0", "R-STEPBOUND", "R-EMPTYSERIES", "R-POINT0", "R-TABLETS", "R-OUTALIAS", "R-HASHSAME", "R-PULLALL", "R-TRUNCDIV", "R-STEPTS"},
 		Explanation: "Structural necessary conditions of instant functions and scalars: the instant-function call site drops samples its kernel declares absent; every Point field a kernel reads is stored by the call site; IDs/values are written in pairs (time(), scalar()); generator operators cannot stall on a zero step and never emit past the window end; scalar operands are indexed only behind a length test.",
 		NotDecided: []string{
 			"not decided: function values, step alignment of scalar arguments that end early, replication of @-pinned vectors (value-level)",
 		}})
 	property(&Property{ID: "C08", Level: "other",
-		Rules: []string{"R-VOCAB", "R-ERRPROP"},
+		Rules: []string{"R-VOCAB", "R-ERRPROP", "R-NODECOPY"},
 		Explanation: "For the complete vocabulary of the pinned parser (every key of parser.Functions, every aggregation and binary operator token, every concrete Expr type, read from the module's source on every run): each item is either handled by a case/table entry of plan construction or reaches a branch that returns an error built from a sentinel of execution/parse; errors created during construction are sentinel-built, propagate unchanged and are checked before results are used; every Expr-typed child of a supported node is planned; unsupported-ness is decided in the construction tree (not in Next/Series); triggerFallback tests every sentinel; the query counter is bumped exactly once with the label of the path taken; the fallback call receives the caller's own arguments.",
 		NotDecided: []string{
 			"not decided: that natively evaluated constructs return the reference's results (C01)",
@@ -45,37 +45,37 @@ func init() {
 			"not decided: that the rewrites preserve semantics (filter evaluation on absent labels, repeated label names, matcher union). Three defects of that kind exist on the pinned tree and are reported in DESIGN.md; no exact shape rule for them was found",
 		}})
 	property(&Property{ID: "C10", Level: "other",
-		Rules: []string{"R-SLOTPTR", "R-DISTTABLE", "R-REMOTELOOKBACK", "R-SHARD", "R-PUSHDOWN", "R-NODECOPY", "R-EXPRORIGIN"},
+		Rules: []string{"R-SLOTPTR", "R-DISTTABLE", "R-REMOTELOOKBACK", "R-SHARD", "R-PUSHDOWN", "R-NODECOPY", "R-EXPRORIGIN", "R-CORECOUNT"},
 		Explanation: "Structural necessary conditions of distributed execution: push-down rewrites land in the tree in every position; only algebraically distributive aggregations are pushed, count is re-aggregated with sum; remote results are read by exact timestamp (no second lookback); the remote reader is a single complete shard; the bottom-up traversal stops (returns true) for every node kind other than the distributive ones it recurses into, so nothing else is pushed down whole.",
 		NotDecided: []string{
 			"not decided: that no selector is left outside a remote execution for every tree shape; commutation with the union for all data (value-level)",
 		}})
 	property(&Property{ID: "C11", Level: "other",
-		Rules: []string{"R-SHARD", "R-LINEAR", "R-GOSHARED", "R-SHARDCOPY", "R-SLABCAP", "R-PUTORDER"},
+		Rules: []string{"R-SHARD", "R-LINEAR", "R-GOSHARED", "R-SHARDCOPY", "R-SLABCAP", "R-PUTORDER", "R-CORECOUNT", "R-POOLLINEAR"},
 		Explanation: "Structural necessary conditions of determinism: no shard is lost or duplicated for any shard count; no operator is consumed by two parents; every variable shared with a goroutine is written index-privately, under a mutex that covers all its accesses, or before a channel/WaitGroup hand-off; shard slices handed to operators are private copies of the shared series list.",
 		NotDecided: []string{
 			"not decided: slicing arithmetic, arrival-order dependent tie-breaking, float summation order, NaN ordering (value-/schedule-level)",
 		}})
 	property(&Property{ID: "C12", Level: "other",
-		Rules: []string{"R-GLOBALS", "R-ENGINEWO", "R-POOLSCOPE", "R-APIFIELDSYNC", "R-GOSHARED", "R-LINEAR", "R-LABELFRESH", "R-SHARDCOPY", "R-PUTORDER"},
+		Rules: []string{"R-GLOBALS", "R-ENGINEWO", "R-POOLSCOPE", "R-APIFIELDSYNC", "R-GOSHARED", "R-LINEAR", "R-LABELFRESH", "R-SHARDCOPY", "R-PUTORDER", "R-POOLLINEAR"},
 		Explanation: "Structural necessary conditions of isolation: package-level state and engine fields are never written after construction; pools and select caches are per plan; fields shared between Exec and Cancel/Close are mutex-protected; intra-query shared writes are synchronised; storage-owned label sets and the shared series list are never edited in place.",
 		NotDecided: []string{
 			"not decided: race freedom inside dependencies and the storage; aliasing the rules do not model",
 		}})
 	property(&Property{ID: "C13", Level: "other",
-		Rules: []string{"R-PANICDOMAIN", "R-WRAP", "R-RECOVERTOTAL", "R-INITBEFOREUSE", "R-INTCONV", "R-SAMPLE0", "R-KERNELBOUNDS", "R-DEFERORDER", "R-POINT0", "R-ACCNONEMPTY"},
+		Rules: []string{"R-PANICDOMAIN", "R-WRAP", "R-RECOVERTOTAL", "R-INITBEFOREUSE", "R-INTCONV", "R-SAMPLE0", "R-KERNELBOUNDS", "R-DEFERORDER", "R-POINT0", "R-ACCNONEMPTY", "R-ALLOCSIZE", "R-QUERYCLOSE"},
 		Explanation: "Structural necessary conditions of crash containment: the API entry and every goroutine that can reach a user-supplied callback is a recovered panic domain; every recovered value is reported; the recovering defer runs before the defer that closes the channel it reports on; no operator state is used before its once-guarded initialiser; run-time floats are tested before integer conversion; scalar operands and windows are indexed behind length tests.",
 		NotDecided: []string{
 			"not decided: fatal runtime errors recover cannot catch (concurrent map writes, stack exhaustion), out-of-memory; panics on worker goroutines caused by defects inside the aggregation tables themselves (no user callback is reachable there)",
 		}})
 	property(&Property{ID: "C14", Level: "other",
-		Rules: []string{"R-LOSTCANCEL", "R-APIFIELDSYNC", "R-ZEROSTEP", "R-CANCELEARLY", "R-CHANCAP", "R-WORKERCLOSE"},
+		Rules: []string{"R-LOSTCANCEL", "R-APIFIELDSYNC", "R-ZEROSTEP", "R-CANCELEARLY", "R-CHANCAP", "R-WORKERCLOSE", "R-CTXDERIVED", "R-QUERYCLOSE"},
 		Explanation: "Structural necessary conditions of cancellation: the per-execution context is cancelled on every return; the cancel function is published to Cancel/Close (under the mutex) before Exec makes its first call into the plan; step cursors terminate on instant queries; every error channel a goroutine sends on without a select has capacity for all its senders, so a sender never blocks after its receiver returned early.",
 		NotDecided: []string{
 			"not decided: 'within bounded time'; storage callbacks that ignore the context; that the context's error rather than a value is returned on the last batch; full deadlock freedom of the worker protocol (R-CHAN of the design was withdrawn, see DESIGN.md)",
 		}})
 	property(&Property{ID: "C15", Level: "other",
-		Rules: []string{"R-ITERERR", "R-SETERR", "R-ERRPROP", "R-ERRSEND"},
+		Rules: []string{"R-ITERERR", "R-SETERR", "R-ERRPROP", "R-ERRSEND", "R-ERRFIRST"},
 		Explanation: "Structural necessary conditions of error surfacing: a failing iterator/series set is distinguished from an exhausted one at every advance site; an error assigned inside a once/closure is assigned to the variable the enclosing function returns (no shadowing declaration); every error returned by a child operator or helper in execution/... is tested and returned before the other results are used.",
 		NotDecided: []string{
 			"not decided: wrapping fidelity of the final error; the once-guarded loaders do not latch their error (no plan was found in which that yields a successful result)",
@@ -87,25 +87,25 @@ func init() {
 			"not decided: the start/end arithmetic; sufficiency of the range under optimizer rewrites (value-level); the order of grouping labels in the hint (sorted in place by the aggregation operators, reported in DESIGN.md)",
 		}})
 	property(&Property{ID: "C17", Level: "other",
-		Rules: []string{"R-QUERIER", "R-LABELFRESH"},
+		Rules: []string{"R-QUERIER", "R-LABELFRESH", "R-QUERYCLOSE"},
 		Explanation: "Structural necessary conditions of storage ownership: every querier is closed exactly once by an unconditional defer placed right after the error check; nothing is opened at query creation; label sets are edited in place only on fresh copies.",
 		NotDecided: []string{
 			"not decided: sort.Sort on uncopied (already sorted) storage labels performs no writes - assumed; closing of remote queries that are created but never executed",
 		}})
 	property(&Property{ID: "C18", Level: "other",
-		Rules: []string{"R-INITBEFOREUSE", "R-PAIRING", "R-ONEPERSTEP", "R-STALE", "R-LINEAR", "R-STEPBOUND", "R-SHARDCOPY", "R-TSTAMP", "R-EMPTYSERIES", "R-TABLETS", "R-OUTALIAS", "R-PULLALL", "R-PUTORDER", "R-ENDSTICKY"},
+		Rules: []string{"R-INITBEFOREUSE", "R-PAIRING", "R-ONEPERSTEP", "R-STALE", "R-LINEAR", "R-STEPBOUND", "R-SHARDCOPY", "R-TSTAMP", "R-EMPTYSERIES", "R-TABLETS", "R-OUTALIAS", "R-PULLALL", "R-PUTORDER", "R-ENDSTICKY", "R-STEPTS"},
 		Explanation: "Structural necessary conditions of the stream contract: operators serve batches whether or not Series was called first; IDs and values are written in pairs; one step vector per step; no staleness marker is emitted; one consumer per operator; generator loops are bounded by the window end; shards renumber private copies; a step vector's timestamp comes from the step grid, not from sample data.",
 		NotDecided: []string{
 			"not decided: uniqueness and range of sample IDs, monotone step order, 'ended stays ended' (value-level)",
 		}})
 	property(&Property{ID: "C19", Level: "other",
-		Rules: []string{"R-LABELBUILD", "R-RESULTSHAPE", "R-STALE", "R-TSTAMP", "R-LABELFRESH", "R-HASHSAME", "R-EXPRORIGIN"},
+		Rules: []string{"R-LABELBUILD", "R-RESULTSHAPE", "R-STALE", "R-TSTAMP", "R-LABELFRESH", "R-HASHSAME", "R-EXPRORIGIN", "R-STEPTS"},
 		Explanation: "Structural necessary conditions of result well-formedness: label sets are not grown by raw appends; the matrix is sorted, empty series pruned, instant samples stamped with the evaluation time; no staleness marker is emitted; kernels stamp their result with the step time; label sets shared through the selector pool are not edited in place.",
 		NotDecided: []string{
 			"not decided: pairwise distinct label sets after name dropping, timestamps on the grid for every operator, overflow/denormal values (value-level)",
 		}})
 	property(&Property{ID: "C20", Level: "other",
-		Rules: []string{"R-ENGINEWO", "R-GLOBALS", "R-POOLSCOPE", "R-FOREIGNAPPEND", "R-USEAFTERPUT", "R-LABELFRESH", "R-RESULTCOPY", "R-OUTALIAS", "R-PUTORDER"},
+		Rules: []string{"R-ENGINEWO", "R-GLOBALS", "R-POOLSCOPE", "R-FOREIGNAPPEND", "R-USEAFTERPUT", "R-LABELFRESH", "R-RESULTCOPY", "R-OUTALIAS", "R-PUTORDER", "R-NODECOPY"},
 		Explanation: "Structural necessary conditions of statelessness: an engine holds nothing a query can write; no kept append onto a caller's or the package's slice; recycled buffers are not read again; storage-owned label sets (which returned results alias) are never edited in place; Exec copies sample values out of pooled step vectors (no pooled slice type is reachable from promql.Result).",
 		NotDecided: []string{
 			"not decided: equality with a fresh engine after data changes (needs running); the storage's own caches",
